@@ -20,7 +20,7 @@ THEOREMS = ["C08_reachable_wf", "C08_decoded_keys_unique", "C08_merge_exact", "C
             "C08_full_refresh_closes", "C08_invalidate", "C08_invalidate_coordinator_request",
             "C08_coordinator_failed_send_keeps_cache", "C08_reresolve", "C08_cached_no_request", "C08_lookups_ask",
             "C08_recovery_partial", "C08_recovery_routes_all_partial", "C08_stale_never_grows", "C08_fresh_iff_no_stale",
-            "C08_recovery_within_budget", "C08_recovery_single_topic", "C08_stale_count_meaning",
+            "C08_recovery_within_budget", "C08_recovery_single_topic", "C08_recovery_delivering_errors", "C08_stale_count_meaning",
             "C08_next_connect_address", "C08_live_connection_kept"]
 
 
@@ -97,6 +97,10 @@ def run(ck):
     vlib.import_repo()
     ck.build([MODEL])
     ck.props()
+    # the caller-budget corollaries depend on the Producer and Consumer developments (other builders' files): soft
+    # obligations, so that a half-edited file there cannot hide a concrete finding of this check
+    ck.make_soft("Props/C08callers.vo")
+    ck.props("C08callers", soft=True)
     rnd = random.Random(ck.seed)
     scale = 1 if ck.tier == "quick" else 20
 
@@ -111,6 +115,7 @@ def run(ck):
               [G.gen_history(rnd, "chaos") for _ in range(400 * scale)])
     run_batch(ck, "failover scenarios (faults, then retries) vs Model.ClientRun.run_ops",
               [G.gen_failover(rnd) for _ in range(500 * scale)])
+    ck.resolve_soft()
     if ck.tier == "thorough":
         run_batch(ck, "exhaustive pairs of metadata responses over a small alphabet vs Model.ClientRun.run_ops", list(enum_small()))
         ck.coqchk(["AV.Props.C08"])
